@@ -35,6 +35,12 @@ Dec4(n) == <<48 + (n \div 1000), 48 + ((n \div 100) % 10), 48 + ((n \div 10) % 1
 \* zero-padded fixed-width text of an instant: YYYY-MM-DDTHH:MM:SSZ
 Text(d, sod) == LET c == CivilFromDays(d) IN
   Dec4(c[1]) \o <<45>> \o Dec2(c[2]) \o <<45>> \o Dec2(c[3]) \o <<84>> \o Dec2(sod \div 3600) \o <<58>> \o Dec2((sod % 3600) \div 60) \o <<58>> \o Dec2(sod % 60) \o <<90>>
+\* the stamp in a log file's name: the same digits without the separators (YYYYMMDDTHHMMSSZ)
+Compact(d, sod) == SelectSeq(Text(d, sod), LAMBDA c : c \notin {45, 58})
+\* a file created between two readings of the clock carries one of the instants in between
+FileNameOk(e) == LET span == (e.ad - e.bd) * 86400 + (e["as"] - e.bs) IN
+                 /\ span >= 0 /\ span <= 600
+                 /\ \E k \in 0..span : LET t == e.bs + k IN e.text = Compact(e.bd + (t \div 86400), t % 86400)
 \* adding a duration (dd days + ds seconds) = convert to the day line, add, convert back
 AddOut(s, dd, ds) ==
   LET sod0 == s[4] * 3600 + s[5] * 60 + s[6]
